@@ -1,31 +1,51 @@
 #!/bin/sh
 # usage: seedcheck.sh <srcdir> <k> <name> <checks...>
 # 1. confirms in a scratch worktree that mutant<k>.diff compiles, passes the existing suite and fails its demo
-#    (and that the demo passes on the clean tree); 2. applies it to /repo, runs the listed checks, reverts.
+#    (and that the demo passes on the clean tree);
+# 2. runs the listed quick checks against the patched scratch worktree (SYMGO_REPO_DIR / SYMGO_HARNESS_DIR point
+#    the engine and the native replay build at scratch copies, so /repo itself is never modified and background
+#    runs against /repo are not disturbed). With SEED_IN_REPO=1 the patch is applied to /repo itself instead
+#    (git -C /repo apply ... ; checks; git -C /repo checkout -- .).
 SRC=$1; K=$2; NAME=$3; shift 3
 OUT=/verif/seeded/$NAME
 mkdir -p $OUT
 cp $SRC/mutant$K.diff $OUT/patch.diff
 DEMO=$(cd $SRC && find . -name "zz_demo${K}_test.go" | head -1)
 cp $SRC/$DEMO $OUT/demo_test.go.txt
-WT=/tmp/seedchk.$$
+W=/tmp/seedwork.$$
+mkdir -p $W
+WT=$W/repo
 git -C /repo worktree add -q $WT HEAD || exit 3
 cp $SRC/$DEMO $WT/$DEMO
 PKG=./$(dirname $DEMO)
 ( cd $WT && go test -vet=off -count=1 -run "TestMutantDemo${K}\$" $PKG >$OUT/clean_demo.log 2>&1 ); CLEAN=$?
-( cd $WT && git apply $OUT/patch.diff ) || { echo "APPLY-FAILED"; git -C /repo worktree remove --force $WT; exit 3; }
-( cd $WT && go build ./... >$OUT/build.log 2>&1 ); BUILD=$?
+( cd $WT && git apply $OUT/patch.diff ) || { echo "APPLY-FAILED"; git -C /repo worktree remove --force $WT; rm -rf $W; exit 3; }
+( cd $WT && go build ./... >/dev/null 2>&1 ); BUILD=$?
 ( cd $WT && go test -vet=off -count=1 -skip TestMutantDemo ./... >$OUT/suite.log 2>&1 ); SUITE=$?
 ( cd $WT && go test -vet=off -count=1 -run "TestMutantDemo${K}\$" $PKG >$OUT/mutant_demo.log 2>&1 ); MDEMO=$?
-git -C /repo worktree remove --force $WT
+rm -f $WT/$DEMO
 echo "confirm: demo-on-clean=$CLEAN(0 wanted) build=$BUILD(0) suite=$SUITE(0) demo-on-mutant=$MDEMO(non-0 wanted)"
-git -C /repo apply $OUT/patch.diff || { echo "APPLY-TO-REPO-FAILED"; exit 3; }
 RES=""
-for c in "$@"; do
-  /verif/check $c quick > $OUT/check_$c.log 2>&1; RC=$?
-  NV=$(grep -c '^VIOLATION' $OUT/check_$c.log)
-  RES="$RES $c:exit=$RC,violations=$NV"
-done
-git -C /repo checkout -- .
+if [ -n "$SEED_IN_REPO" ]; then
+  git -C /repo apply $OUT/patch.diff || { echo "APPLY-TO-REPO-FAILED"; exit 3; }
+  for c in "$@"; do
+    /verif/check $c quick > $W/check_$c.log 2>&1; RC=$?
+    RES="$RES $c:exit=$RC,violations=$(grep -c '^VIOLATION' $W/check_$c.log)"
+  done
+  git -C /repo checkout -- .
+else
+  cp -r /verif/harness $W/harness
+  sed -i "s|=> /repo|=> $WT|" $W/harness/go.mod
+  sed -i "s|/repo/clientip|$WT/clientip|; s|/verif/harness/overlay|$W/harness/overlay|" $W/harness/overlay.json
+  mkdir -p $W/ev $W/replays
+  for c in "$@"; do
+    SYMGO_HARNESS_DIR=$W/harness SYMGO_REPO_DIR=$WT SYMGO_TESTBIN=$W/harness.test SYMGO_EVIDENCE_DIR=$W/ev SYMGO_REPLAY_DIR=$W/replays \
+      GOFLAGS=-mod=mod GOPROXY=off /verif/bin/symgo run -prop $c -tier quick > $W/check_$c.log 2>&1; RC=$?
+    RES="$RES $c:exit=$RC,violations=$(grep -c '^VIOLATION' $W/check_$c.log)"
+    grep -A1 '^VIOLATION' $W/check_$c.log | head -4 | cut -c1-400 > $OUT/first_violation_$c.txt
+  done
+fi
+git -C /repo worktree remove --force $WT
+rm -rf $W
 echo "checks:$RES"
 echo "confirm: demo-on-clean=$CLEAN build=$BUILD suite=$SUITE demo-on-mutant=$MDEMO checks:$RES" > $OUT/result.txt
